@@ -394,6 +394,16 @@ def compare_branches(ctx: Ctx) -> Dict[str, Tuple[ast.If, ast.expr]]:
             continue
         tests = node.test.values if isinstance(node.test, ast.BoolOp) and isinstance(node.test.op, ast.And) else [node.test]
         lits: List[str] = []
+        # `operator == "a" or operator == "b"` (possibly as one conjunct)
+        flat: List[ast.expr] = []
+        for t in tests:
+            if isinstance(t, ast.BoolOp) and isinstance(t.op, ast.Or) and all(
+                isinstance(v, ast.Compare) and path_of(v.left) == opname for v in t.values
+            ):
+                flat.extend(t.values)
+            else:
+                flat.append(t)
+        tests = flat
         for t in tests:
             if isinstance(t, ast.Compare) and len(t.ops) == 1 and path_of(t.left) == opname:
                 c = t.comparators[0]
